@@ -14,6 +14,7 @@ from props.c10 import enumerate_models
 
 TITLE = "adders and population count"
 LEVEL = "proof"
+DOMAINS = ['Card']
 
 
 def real_cnf(nfr):
